@@ -69,7 +69,7 @@ class G:
         if r < 0.45:
             return ('opassign', v, self.r.choice(['+', '-', '*']), self.arith(1, vars_))
         if r < 0.7:
-            return ('print', self.r.choice(['s ', 'tab\\there ', 'q\\"uote ', 'n ', '']), self.arith(1, vars_ + ['x']))
+            return ('print', self.r.choice(['s ', 'tab\\there ', 'q\\"uote ', 'n ', '', 'say \\"hi\\"', ' \\"']), self.arith(1, vars_ + ['x']))
         if r < 0.82 and d > 0:
             return ('if', self.cond(1, vars_ + ['x']), [self.stmt(d - 1, vars_)], [self.stmt(d - 1, vars_)] if self.r.random() < 0.5 else None)
         if r < 0.9:
